@@ -10,5 +10,6 @@ CONSTANTS
   Cfg0 <- Cfg0C09q
   Cfgs <- AllCfgs
   Bud0 <- BudC09q
+  OwnEntryCheck = TRUE
 INVARIANTS TypeOK HeartbeatFresh
 PROPERTIES OwnEntryOnly StateEdges RefusedUntouched HeartbeatMonotone RegisteredOnce ActivationTokens ReadyImpliesActive KeepsIdentity ReRegistersFresh
